@@ -112,3 +112,88 @@ Proof. unfold rr_slice, rr_take, rr_drop. cbn [Z.to_N]. rewrite dropN_0. apply t
 
 Lemma take_zero l : rr_take 0 l = [].
 Proof. apply takeN_0. Qed.
+
+(* ================= the iterator primitives on concrete states ================= *)
+Lemma cpm_busy r d o : d <> 0 -> r <> [] -> can_pack_more (mkIt r d o false) = (mkIt r d o false, true).
+Proof.
+  intros Hd Hr. unfold can_pack_more. cbn [it_debt it_rest it_out it_bad].
+  destruct (d =? 0) eqn:E; [lia|]. destruct r as [|c r]; [contradiction|].
+  cbn [at_end it_rest rflag it_debt it_out it_bad]. rewrite E. reflexivity.
+Qed.
+
+Lemma cpm_next c n r o : snd n <> 0 ->
+  can_pack_more (mkIt (c :: n :: r) 0 o false) = (mkIt (n :: r) (snd n) o false, true).
+Proof.
+  intros Hn. unfold can_pack_more, update_spec.
+  cbn [it_debt it_rest it_out it_bad set_rest rflag set_debt at_end Z.eqb negb orb].
+  destruct (snd n =? 0) eqn:E; [lia|]. reflexivity.
+Qed.
+
+Lemma cpm_last c o : can_pack_more (mkIt [c] 0 o false) = (mkIt [] 0 o false, false).
+Proof. reflexivity. Qed.
+
+Lemma cpm_ended o : can_pack_more (mkIt [] 0 o false) = (mkIt [] 0 o false, false).
+Proof. reflexivity. Qed.
+
+Lemma gnro_busy co cl r d o : d <> 0 -> o <= co + cl - d ->
+  get_next_range_offset (mkIt ((co, cl) :: r) d o false) = (mkIt ((co, cl) :: r) d o false, co + cl - d).
+Proof.
+  intros Hd Ho. unfold get_next_range_offset. rewrite cpm_busy by (try discriminate; assumption).
+  cbn [negb rflag it_rest it_debt it_out it_bad orb current_spec].
+  destruct (co + cl - d <? o) eqn:E; [lia|]. rewrite andb_false_r. reflexivity.
+Qed.
+
+Lemma lts_busy co cl r d o astart asize : 0 < d ->
+  length_to_send (mkIt ((co, cl) :: r) d o false) astart asize =
+  (mkIt ((co, cl) :: r) d o false, if astart <? co then 0 else Z.min d asize).
+Proof.
+  intros Hd. unfold length_to_send. rewrite cpm_busy by (try discriminate; lia).
+  cbn [negb rflag it_rest it_debt it_out it_bad orb current_spec].
+  destruct (d =? -1) eqn:E1; [lia|]. destruct (0 <? d) eqn:E2; [|lia].
+  cbn [negb orb]. destruct (astart <? co); reflexivity.
+Qed.
+
+Lemma note_sent_ok r d o n : 0 < d -> 0 <= n <= d ->
+  note_sent (mkIt r d o false) n = mkIt r (d - n) (o + n) false.
+Proof.
+  intros Hd Hn. unfold note_sent. cbn [set_out it_rest it_debt it_out it_bad].
+  destruct (d =? -1) eqn:E1; [lia|]. cbn [set_debt rflag it_rest it_debt it_out it_bad orb].
+  destruct (d - n <? 0) eqn:E2; [lia|]. destruct (d - n <? -1) eqn:E3; [lia|]. reflexivity.
+Qed.
+
+(* ================= what a 206 body has to be ================= *)
+(* ascending, disjoint, non-empty, inside the body: the canonical non-complex lists *)
+Fixpoint chain (clen lo : Z) (l : list rspec2) : Prop :=
+  match l with
+  | [] => True
+  | c :: r => lo <= fst c /\ 0 < snd c /\ fst c + snd c <= clen /\ chain clen (fst c + snd c) r
+  end.
+
+Definition hdr_mp (e : renv) (c : rspec2) : bytes := if e_multipart e then pack_range_hdr e c else [].
+Definition term_mp (e : renv) : bytes := if e_multipart e then pack_term_bound e else [].
+
+(* the parts, in order: (part header) ++ object[offset, offset+length) *)
+Fixpoint parts_body (e : renv) (obj : bytes) (cs : list rspec2) : bytes :=
+  match cs with
+  | [] => []
+  | c :: r => hdr_mp e c ++ rr_slice obj (fst c) (snd c) ++ parts_body e obj r
+  end.
+Definition expected_body (e : renv) (obj : bytes) (cs : list rspec2) : bytes := parts_body e obj cs ++ term_mp e.
+
+(* what is still to be written when d bytes of the current spec c are owed *)
+Definition hdr_if (e : renv) (c : rspec2) (d : Z) : bytes :=
+  if e_multipart e && (d =? snd c) then pack_range_hdr e c else [].
+Definition remaining (e : renv) (obj : bytes) (c : rspec2) (r : list rspec2) (d : Z) : bytes :=
+  hdr_if e c d ++ rr_slice obj (fst c + snd c - d) d ++ parts_body e obj r ++ term_mp e.
+
+Fixpoint sum_len (l : list rspec2) : Z := match l with [] => 0 | c :: r => snd c + sum_len r end.
+
+Lemma remaining_start e obj c r : remaining e obj c r (snd c) = expected_body e obj (c :: r).
+Proof.
+  unfold remaining, expected_body, hdr_if, hdr_mp. cbn [parts_body]. rewrite Z.eqb_refl, andb_true_r.
+  replace (fst c + snd c - snd c) with (fst c) by lia. unfold hdr_mp. now rewrite <- !app_assoc.
+Qed.
+
+Lemma chain_sum_nonneg clen lo l : chain clen lo l -> 0 <= sum_len l.
+Proof. revert lo; induction l as [|c r IH]; intros lo H; cbn [sum_len]; [lia|]. destruct H as (_ & H2 & _ & H4). specialize (IH _ H4). lia. Qed.
+
